@@ -2574,6 +2574,8 @@ func (p *Parser) caseItems(stop string) (items []*CaseItem) {
 			}
 		}
 		old := p.preNested(switchCase)
+		// As in a subshell, newlines here start pending here-documents.
+		p.buriedHdocs = old.buriedHdocs
 		p.next()
 		ci.Stmts, ci.Last = p.stmtList(stop)
 		p.postNested(old)
